@@ -201,6 +201,13 @@ def _rand():
     return v
 @ext('dlopen', 'dlsym', 'dlclose', 'dlerror')
 def _dl(*a): raise Unmodeled('dlopen family (FFI)')
+_ERRCAT = {}
+def _errcat(name):
+    def f():
+        if name not in _ERRCAT: _ERRCAT[name] = rt.new_obj(16, 'global', 'std::error_category (%s): opaque, never dispatched on' % name)
+        return _ERRCAT[name]
+    return f
+EXT['_ZNSt3_V215system_categoryEv'] = _errcat('system'); EXT['_ZNSt3_V216generic_categoryEv'] = _errcat('generic')
 @ext('getenv')
 def _getenv(p): return 0
 
@@ -408,12 +415,16 @@ def _hash_bytes(p, n, seed):
     if n.__class__ is S: n = rt.concretize(n)
     if seed.__class__ is S: seed = rt.concretize(seed)
     vals = rt.read_vals(p, n) if n <= 16 else None
+    if vals is not None and rt.HOOKS.get('hash_enumerate', True):
+        # a key byte with a small feasible domain (a character class of the scanner) is enumerated: every distinct key is its own path with its
+        # real hash; only bytes that stay widely symbolic go through the uninterpreted function below
+        vals = [rt.enumerate_small(v, 32) if v.__class__ is S else v for v in vals]
     if vals is not None and any(v.__class__ is S for v in vals):
         # symbolic bytes: an uninterpreted function of (bytes, seed) per length -- all the callers rely on is that equal inputs hash equally
         bv = z3.Concat(*[(v.e if v.__class__ is S else z3.BitVecVal(v, 8)) for v in reversed(vals)]) if n > 1 else (vals[0].e)
         f = z3.Function('hash_bytes_%d' % n, z3.BitVecSort(8 * n), z3.BitVecSort(64), z3.BitVecSort(64))
         return S(f(bv, z3.BitVecVal(seed, 64)), 64)
-    data = rt.read_bytes(p, n)
+    data = bytes(vals) if vals is not None else rt.read_bytes(p, n)
     mul = (0xc6a4a793 << 32) + 0x5bd1e995
     def shift_mix(v): return v ^ (v >> 47)
     h = (seed ^ (n * mul)) & M64
